@@ -5,6 +5,7 @@ mod c03;
 mod c04;
 mod c05;
 mod c06;
+mod c07api;
 mod c09;
 mod c10;
 mod c10net;
